@@ -42,7 +42,7 @@ def pMeta : P MetaLine := do
   pure ⟨⟨comm, cats, r, w, c⟩, ⟨sr, sw, sc⟩⟩
 
 def denyName : Deny → String
-  | .unauthenticated => "unauthenticated" | .categories => "categories" | .command => "command"
+  | .unauthenticated => "unauthenticated" | .disabled => "disabled" | .categories => "categories" | .command => "command"
   | .channel => "channel" | .noKeys => "nokeys" | .readKeys => "readkeys" | .writeKeys => "writekeys"
 
 def fullFootprint (ml : MetaLine) : Spec.Footprint :=
